@@ -334,3 +334,120 @@ func TestVerifC11WaitAfterAdd(t *testing.T) {
 	defer st.Flush()
 	rapid.Check(t, func(t *rapid.T) { runExecutorCase(t, st, true) })
 }
+
+// "… is passed to the execute callback … on the periodic flush …, including ticks that make the
+// background goroutine quit": tasks that never reach the size threshold and are never followed by
+// Flush or Wait must still be executed by the flush timer — also after the background flusher
+// went idle, quit and was restarted by a later Add (any number of times).  Real 1-3 ms intervals;
+// the verdict budget is >= 3000 intervals (10 s), so an overrun is not a scheduling accident.
+func TestVerifC11PeriodicFlush(t *testing.T) {
+	logx.Disable()
+	st := verifkit.New("periodic-flush")
+	defer st.Flush()
+	rapid.Check(t, func(t *rapid.T) {
+		st.Eval()
+		kind := execKind(rapid.IntRange(0, 2).Draw(t, "executor"))
+		intervalMs := rapid.IntRange(1, 3).Draw(t, "intervalMs")
+		interval := time.Duration(intervalMs) * time.Millisecond
+		cycles := rapid.IntRange(2, 4).Draw(t, "cycles")
+		var mu sync.Mutex
+		execCnt := map[int]int{}
+		callback := func(tasks []any) {
+			mu.Lock()
+			for _, x := range tasks {
+				execCnt[x.(int)]++
+			}
+			mu.Unlock()
+		}
+		const never = 1 << 20 // size threshold that is never reached
+		var ex exec
+		switch kind {
+		case kBulk:
+			b := executors.NewBulkExecutor(callback, executors.WithBulkTasks(never), executors.WithBulkInterval(interval))
+			ex = exec{func(id, _ int) { b.Add(id) }, b.Flush, b.Wait}
+		case kChunk:
+			c := executors.NewChunkExecutor(callback, executors.WithChunkBytes(never), executors.WithFlushInterval(interval))
+			ex = exec{func(id, size int) { c.Add(id, size) }, c.Flush, c.Wait}
+		default:
+			cont := &sliceContainer{max: never, fn: callback}
+			p := executors.NewPeriodicalExecutor(interval, cont)
+			ex = exec{func(id, _ int) { p.Add(id) }, func() { p.Flush() }, p.Wait}
+		}
+		id := 0
+		var desc strings.Builder
+		fmt.Fprintf(&desc, "ex=%d iv=%v", kind, interval)
+		restarts := 0
+		for c := 0; c < cycles; c++ {
+			n := rapid.IntRange(1, 3).Draw(t, "adds")
+			gapUs := rapid.SampledFrom([]int{0, 0, 200, 1500}).Draw(t, "gapUs")
+			var ids []int
+			for i := 0; i < n; i++ {
+				id++
+				ids = append(ids, id)
+				ex.add(id, 1)
+				if gapUs > 0 {
+					time.Sleep(time.Duration(gapUs) * time.Microsecond)
+				}
+			}
+			fmt.Fprintf(&desc, " | add x%d (gap %dus)", n, gapUs)
+			// no Flush, no Wait: the flush timer alone must deliver them
+			deadline := time.Now().Add(10 * time.Second)
+			for {
+				mu.Lock()
+				done := true
+				for _, x := range ids {
+					if execCnt[x] == 0 {
+						done = false
+					}
+				}
+				mu.Unlock()
+				if done {
+					break
+				}
+				if time.Now().After(deadline) {
+					t.Fatalf("C11 VIOLATED (every accepted task is executed … on the periodic flush, also after the background flusher quit and restarted): "+
+						"tasks %v were added (no Flush/Wait followed, threshold never reached) and not executed within 10 s (interval %v); history: %s",
+						ids, interval, desc.String())
+				}
+				time.Sleep(200 * time.Microsecond)
+			}
+			// what happens between the bursts: short gap (flusher stays), long idle gap (> 10
+			// intervals: flusher quits), or an explicit flush/wait on the empty executor
+			between := rapid.SampledFrom([]string{"idle-long", "idle-long", "idle-short", "flush-then-idle", "wait-then-idle"}).Draw(t, "between")
+			fmt.Fprintf(&desc, " -> delivered | %s", between)
+			switch between {
+			case "idle-short":
+				time.Sleep(2 * interval)
+			case "flush-then-idle":
+				ex.flush()
+				time.Sleep(25 * interval)
+				restarts++
+			case "wait-then-idle":
+				ex.wait()
+				time.Sleep(25 * interval)
+				restarts++
+			default:
+				time.Sleep(time.Duration(rapid.IntRange(15, 40).Draw(t, "idleIntervals")) * interval)
+				restarts++
+			}
+		}
+		wdone := make(chan struct{})
+		go func() { ex.wait(); close(wdone) }()
+		select {
+		case <-wdone:
+		case <-time.After(30 * time.Second):
+			t.Fatalf("final Wait did not return within 30 s; history: %s", desc.String())
+		}
+		mu.Lock()
+		defer mu.Unlock()
+		for x := 1; x <= id; x++ {
+			if execCnt[x] != 1 {
+				t.Fatalf("task %d was passed to the execute callback %d times (want exactly once); history: %s", x, execCnt[x], desc.String())
+			}
+		}
+		st.ClassN("idle-gaps-long-enough-for-flusher-quit", restarts)
+		if restarts >= 1 {
+			st.NonTrivial(desc.String())
+		}
+	})
+}
